@@ -631,6 +631,14 @@ func c14Route(pats []model.Name, q model.Name, qtype uint16) (allowed []int, ref
 func c14Routing(w *core.W, j int) {
 	g := model.NewGen(w.Rng(j))
 	r := g.R
+	var registered []string
+	cleanDefaultMux := func() {
+		for _, p := range registered {
+			dns.HandleRemove(p)
+		}
+		registered = nil
+	}
+	defer cleanDefaultMux()
 	for round := 0; round < 6; round++ {
 		g.Plain = round%2 == 0
 		// a tree of related names
@@ -641,7 +649,16 @@ func c14Routing(w *core.W, j int) {
 		universe := []model.Name{{}, base, base[1:], append(model.Name{g.Label()}, base...)}
 		universe = append(universe, append(model.Name{g.Label()}, universe[3]...), model.Name{[]byte("b"), []byte("c")}, g.FreshName(), model.Name{g.Label()})
 		var pats []model.Name
-		mux := dns.NewServeMux()
+		// a mux of its own, or (every third round) the package's default mux through dns.HandleFunc /
+		// dns.HandleRemove, which is what a Server without a Handler routes through
+		handleFunc, handleRemove, serveDNS := dns.HandleFunc, dns.HandleRemove, dns.DefaultServeMux.ServeDNS
+		if round%3 != 1 {
+			mux := dns.NewServeMux()
+			handleFunc, handleRemove, serveDNS = mux.HandleFunc, mux.HandleRemove, mux.ServeDNS
+		} else {
+			w.Count("routing_rounds_default_mux", 1)
+		}
+		cleanDefaultMux() // what an earlier round left in the default mux
 		hit := -1
 		for i, n := range universe {
 			if r.IntN(2) == 0 {
@@ -669,7 +686,10 @@ func c14Routing(w *core.W, j int) {
 					pat += "."
 				}
 			}
-			mux.HandleFunc(pat, func(dns.ResponseWriter, *dns.Msg) { hit = id })
+			handleFunc(pat, func(dns.ResponseWriter, *dns.Msg) { hit = id })
+			if round%3 == 1 {
+				registered = append(registered, pat)
+			}
 			_ = i
 		}
 		// three phases over the same mux: as registered; after HandleRemove of a random subset (the
@@ -692,10 +712,13 @@ func c14Routing(w *core.W, j int) {
 						spelled = v.Pres()
 					}
 					if active[i] {
-						mux.HandleRemove(spelled)
+						handleRemove(spelled)
 						active[i] = false
 					} else {
-						mux.HandleFunc(spelled, func(dns.ResponseWriter, *dns.Msg) { hit = i })
+						handleFunc(spelled, func(dns.ResponseWriter, *dns.Msg) { hit = i })
+						if round%3 == 1 {
+							registered = append(registered, spelled)
+						}
 						active[i] = true
 					}
 				}
@@ -737,7 +760,7 @@ func c14Routing(w *core.W, j int) {
 				rw := &muxRW{}
 				w.Eval(1)
 				wit := map[string]any{"patterns": presAll(pats), "qname": q.Pres(), "qtype": qtype}
-				if w.Guard("ServeMux.ServeDNS", wit, func() { mux.ServeDNS(rw, req) }) {
+				if w.Guard("ServeMux.ServeDNS", wit, func() { serveDNS(rw, req) }) {
 					continue
 				}
 				w.NontrivialStr(q.Pres(), fmt.Sprint(qtype), strings.Join(presAll(pats), "|"))
